@@ -56,6 +56,12 @@ ASSUMPTIONS = [
     "no field setting is excluded: the three PDU-level asymmetries of DESIGN.md §5 rows 3-5 (C03) were routed around until "
     "they were repaired in /repo (a566ed4, 2d4d28d, 70fa250); on older trees they show up here as "
     "parsed_payload_fields_equal / reassembled_bytes_identical failures of NACK_Rsp, C_ALOHA and response headers",
+    "'payload field values' = (a) every field the generator generated for the variant, compared with the GENERATED value, "
+    "the library-computed check fields compared with the assembled object, (b) public non-callable attributes present on "
+    "both the assembled and the parsed PDU and not None on the assembled one; attributes that are None / absent on the "
+    "assembled object (diagnostics such as source_bits), private names and *_ok verdicts are not payload fields; an "
+    "attribute absent on one side is a note (class 'note:...' in the evidence), never a violation.  Enums are addressed by "
+    "member name (sorted by name for drawing), SYNC words are read through the public as_bits()",
     "rate blocks: a burst alone cannot know confirmed/last, the parsed block is .convert()-ed to the generated block type "
     "before fields are compared (the library's own idiom in Transmission)",
     "reuse, in-place variant: copying the attribute dict of a fresh PDU / SlotType into the old object of the same class "
